@@ -59,6 +59,7 @@ class Contract:
         self.native_requires = list(g('native_requires', []))
         self.native_seeds = list(g('native_seeds', []))
         self.solver = dict(g('solver', {}))
+        self.sets_if = dict(g('sets_if', {}))
         self.source_file = None
         self.name = cls.__name__
 
